@@ -33,6 +33,9 @@ def agent_schema(vals):
         'z': {'_default': vals.get('z', 9), '_divider': 'zero'},
         'tags': {'_default': {}, '_updater': 'dict_value', '_divider': {'divider': 'set_value', 'config': {'value': {}}}},
         'sd': {'_default': {}, '_updater': 'set', '_divider': 'split_dict'},
+        # the configured value of set_value is a value like any other -- also when it is a pair (a 2-D velocity reset at division)
+        'vel': {'_default': [1.0, 2.0], '_updater': 'set', '_divider': {'divider': 'set_value', 'config': {'value': [0.0, 0.0]}}},
+        'pair': {'_default': 'p', '_updater': 'set', '_divider': {'divider': 'set_value', 'config': {'value': ('x', 'y')}}},
         'b': {'_default': vals['b'], '_divider': 'binomial'},
         'c': {'_default': 10, '_divider': {'divider': custom_divider, 'config': {'offset': 3}}},
         'grp': {'_divider': branch_divider, 'u': {'_default': 4}, 'w': {'_default': 6}},
@@ -231,6 +234,9 @@ def check(sd):
         fails.append('set divider: daughters bag %r / %r, mother %r' % (d1['bag'], d2['bag'], mother['bag']))
     if (d1['z'], d2['z']) != (0, 0):
         fails.append('zero divider gave %r, %r' % (d1['z'], d2['z']))
+    if d1['vel'] != [0.0, 0.0] or d2['vel'] != [0.0, 0.0] or tuple(d1['pair']) != ('x', 'y') or tuple(d2['pair']) != ('x', 'y'):
+        fails.append('set_value divider configured with a pair: daughters start with vel %r / %r and pair %r / %r, configured [0.0, 0.0] and (x, y)'
+                     % (d1['vel'], d2['vel'], d1['pair'], d2['pair']))
     if d1['tags'] != {} or d2['tags'] != {}:
         fails.append('set_value divider: daughters did not start from the configured value: %r / %r' % (d1['tags'], d2['tags']))
     if set(d1['sd']) & set(d2['sd']) or set(d1['sd']) | set(d2['sd']) != set(mother['sd']) or \
